@@ -1296,6 +1296,12 @@ class Interp:
             return Model(canon(kwargs.get("name", args[0] if args else "model")))
         if dotted == "range":
             return self.do_range(args, e)
+        if dotted == "enumerate" and len(args) == 1 and isinstance(args[0], (PList, tuple)) and not kwargs:
+            items = args[0].items if isinstance(args[0], PList) else list(args[0])
+            return PList([(Rat.const(i), x) for i, x in enumerate(items)])
+        if dotted == "zip" and len(args) >= 2 and all(isinstance(a, (PList, tuple)) for a in args) and not kwargs:
+            cols = [a.items if isinstance(a, PList) else list(a) for a in args]
+            return PList([tuple(t) for t in zip(*cols)])
         if dotted == "str":
             return self.to_str(args[0], e)
         if dotted == "len":
